@@ -31,6 +31,9 @@ CFG = {
 }
 
 
+SIM = {"quick": (400, 8), "thorough": (4000, 12)}
+
+
 def write_cfg(path, c, emit, deviations="{}"):
     with open(path, "w") as f:
         f.write(f"""SPECIFICATION Spec
@@ -129,6 +132,28 @@ def run(tier):
         ck.notes.append({"label": label, "replayed_edges": summ["edges"], "groups": summ["groups"],
                          "skipped_edges": summ["skipped"], "stats": summ["stats"]})
         exhaustive = exhaustive and res["finished"] and summ["edges"] == res["counts"]["EDGE"] and summ["skipped"] == 0
+        os.remove(edges)
+        # G-sim: random behaviours with their real, unmerged histories (inert inputs stay in the prefix), every
+        # out-edge of every visited state: catches implementation state that the model state does not determine
+        nsim, depth = SIM[tier]
+        cfg = os.path.join(vlib.SPEC, f"MC_IceAgent_{tier}_sim.gen.cfg")
+        write_cfg(cfg, consts, emit=True)
+        edges = os.path.join(ck.dir, f"edges_{tier}_{label}_sim.ndjson")
+        try:
+            res = vlib.tlc("MC_IceAgent", os.path.basename(cfg), tags=("EDGE",), sinks={"EDGE": edges},
+                           simulate=nsim, depth=depth, timeout=900, tag=f"MC_IceAgent_{tier}_sim")
+        finally:
+            try:
+                os.remove(cfg)
+            except OSError:
+                pass
+        vlib.tlc_ok(res, label + "/sim")
+        ck.add_tlc(res, label + "/sim")
+        summ = replay_edges(ck, edges, f"{tier}_{label}_sim")
+        total += summ["edges"]
+        ck.notes.append({"label": label + "/sim", "behaviours": nsim, "depth": depth, "replayed_edges": summ["edges"],
+                         "groups": summ["groups"], "skipped_edges": summ["skipped"], "stats": summ["stats"]})
+        os.remove(edges)
     ck.cov["traces_validated_against_impl"] = total
     ck.cov["evaluations"] = total
     ck.cov["distinct_nontrivial"] = len(nontrivial)
